@@ -27,7 +27,7 @@ CONF = {
 
 def history_replay_payload(h, upto=None):
     steps = h["steps"] if upto is None else h["steps"][:upto + 1]
-    return {"sets": h["sets"], "events": [st["ev"] for st in steps], "profile": h.get("profile")}
+    return {"sets": h["sets"], "pre": h.get("pre") or [], "events": [st["ev"] for st in steps], "profile": h.get("profile")}
 
 
 def rerun(ctx, bins, payload, tag="rp"):
@@ -36,7 +36,7 @@ def rerun(ctx, bins, payload, tag="rp"):
     out = os.path.join(ctx.run, "%s-%d.jsonl" % (tag, rerun.n))
     rerun.n += 1
     json.dump(payload, open(path, "w"))
-    rc, o = sh([bins["sysrun"], "-replay", path, "-out", out], timeout=120)
+    rc, o = sh([bins["sysrun"], "-replay", path, "-out", out, "-dir", ctx.run], timeout=120)
     hs = parse_histories(out)
     if not hs:
         return None
